@@ -40,17 +40,19 @@ schedule, from abstractly equal starts, end with equal core states modulo the ri
 c1 is not an input-block boundary (`hsafe`).
 Since the oracle is asked with (invocation number, request) and the invocation number is part of
 the compared state (`nEnc`), equal final states mean equally many invocations; the bytes are equal
-with no hypothesis on the oracle.
+with no hypothesis on the oracle.  The request lists themselves: `merged_requests` (the merged run
+issues exactly the requests of the two runs, in order; `vreq` / `vlog` of Lemmas/StreamChunk3) and
+`step_vreq` (the model's request at an `encode_data` step is `vreq` of the erased configuration).
 -/
 namespace BV.Props.C05Chunk
 open BV.Stream BV.Bits
 
 /-- ends of the trajectory behind the merge point are ends of the merged trajectory -/
-theorem vmerge_end {o : Oracle} {op2 : Nat} {M C e : Abs} {d : Bool}
-    (hm : ∃ m x, VPath o op2 M m x ∧ (x = C ∨ (vstep o op2 C = some x ∧ ¬ FlushStep C x)))
+theorem vmerge_end {o : Oracle} {op2 : Nat} {M C e : Abs} {d : Bool} {L : Nat → Prop}
+    (hm : ∃ m x, VPath o op2 M m x ∧ (x = C ∨ (vstep o op2 C = some x ∧ ¬ FlushStep C x ∧ vreq op2 C = [])) ∧ L m)
     (he : VEnd o op2 C e d) (hf : d = true ∨ vstep o op2 e = none) : VEnd o op2 M e d := by
-  obtain ⟨m, x, hp, hx⟩ := hm
-  rcases hx with rfl | ⟨hs, hnf⟩
+  obtain ⟨m, x, hp, hx, _⟩ := hm
+  rcases hx with rfl | ⟨hs, hnf, _⟩
   · cases d with
     | false =>
       obtain ⟨n, p⟩ := he
@@ -79,6 +81,78 @@ theorem vmerge_end {o : Oracle} {op2 : Nat} {M C e : Abs} {d : Bool}
         rw [hs] at hs'
         cases hs'
         exact ⟨m + _, y, hp.append p', s, f⟩
+
+/-- an end of a run together with the payload-encoder requests issued on the way (`vlog`; the step
+that completes a flush issues none) -/
+def VEndL (o : Oracle) (op : Nat) (a b : Abs) (log : List Req) : Bool → Prop
+  | false => ∃ n, VPath o op a n b ∧ vlog o op n a = log
+  | true => ∃ n x, VPath o op a n x ∧ vstep o op x = some b ∧ FlushStep x b ∧ vlog o op n a = log
+
+theorem VEndL.toVEnd {o : Oracle} {op : Nat} {a b : Abs} {log : List Req} {d : Bool} (h : VEndL o op a b log d) : VEnd o op a b d := by
+  cases d with
+  | false => obtain ⟨n, p, _⟩ := h; exact ⟨n, p⟩
+  | true => obtain ⟨n, x, p, s, f, _⟩ := h; exact ⟨n, x, p, s, f⟩
+
+/-- **the requests of the merged run are the requests of the two runs, in order** (ring-free machine):
+PROCESS `c1` run to its end with request list `vlog … n1`, then `(op2, c2)` run to its end `e` with
+request list `log2`; the single request `(op2, c1 ++ c2)` reaches the same end `e` and issues exactly
+`vlog … n1 ++ log2` — under the proviso of `vmerge`.  Every field of every request (`lo`, `hi`, `lf`,
+`is_last`, `force_flush`) is therefore independent of where the chunk boundary was. -/
+theorem merged_requests {o : Oracle} {op2 n1 : Nat} {s : St} {out c1 c2 : Bytes} {b1 e : Abs} {d : Bool} {log2 : List Req}
+    (p1 : VPath o 0 ⟨s, out, c1, c1.length⟩ n1 b1) (t1 : vstep o 0 b1 = none) (hin : b1.input = [])
+    (hS : VStart s (c1 ++ c2)) (hsafe : op2 = 0 ∨ c2 ≠ [] ∨ NotBoundary s c1)
+    (he : VEndL o op2 ⟨b1.s, b1.out, c2, c2.length⟩ e log2 d) (hf : d = true ∨ vstep o op2 e = none) :
+    VEndL o op2 ⟨s, out, c1 ++ c2, (c1 ++ c2).length⟩ e (vlog o 0 n1 ⟨s, out, c1, c1.length⟩ ++ log2) d := by
+  obtain ⟨m, x, hp, hx, hlog⟩ := vmerge (o := o) (op2 := op2) (c2 := c2) n1 s out c1 b1 p1 t1 hin hS hsafe
+  rcases hx with rfl | ⟨hs, hnf, hv⟩
+  · cases d with
+    | false =>
+      obtain ⟨n, p, hl⟩ := he
+      exact ⟨m + n, hp.append p, by rw [vlog_append hp, hlog, hl]⟩
+    | true =>
+      obtain ⟨n, y, p, s', f, hl⟩ := he
+      exact ⟨m + n, y, hp.append p, s', f, by rw [vlog_append hp, hlog, hl]⟩
+  · cases d with
+    | false =>
+      obtain ⟨n, p, hl⟩ := he
+      have ht : vstep o op2 e = none := by rcases hf with h | h; cases h; exact h
+      cases p with
+      | nil _ => rw [ht] at hs; cases hs
+      | @cons _ _ _ k hs' _ p' =>
+        have hs'' := hs'
+        rw [hs] at hs'
+        cases hs'
+        refine ⟨m + k, hp.append p', ?_⟩
+        rw [vlog_append hp, hlog, ← hl, vlog_succ _ hs'', hv, List.nil_append]
+    | true =>
+      obtain ⟨n, y, p, s', f, hl⟩ := he
+      cases p with
+      | nil _ =>
+        rw [hs] at s'
+        cases s'
+        exact absurd f hnf
+      | @cons _ _ _ k hs' _ p' =>
+        have hs'' := hs'
+        rw [hs] at hs'
+        cases hs'
+        refine ⟨m + k, y, hp.append p', s', f, ?_⟩
+        rw [vlog_append hp, hlog, ← hl, vlog_succ _ hs'', hv, List.nil_append]
+
+/-- **tie of the request log to the model**: the request an `encode_data` step of the model's main loop
+issues (what the correspondence run compares with the hook log of the real code) is the request
+`vreq` of the ring-free configuration at that step -/
+theorem step_vreq {o : Oracle} {op : Nat} {s s2 : St} {io : Io} {req : Req} (del : Bytes)
+    (hI : Inv s) (hnf : ¬ fastMode s.params)
+    (hnc : ¬ (remainingInputBlockSize s ≠ 0 ∧ io.availIn ≠ 0)) (hnp : ¬ PadDue s)
+    (hst : s.streamState = .processing) (hgo : remainingInputBlockSize s = 0 ∨ op ≠ 0)
+    (h : encodeData o (updateSizeHint s io.availIn) 0 (slowIl op io) (slowFf op io) = .ok (s2, true, req)) :
+    vreq op (erA (absOf s io del)) = [req] := by
+  obtain ⟨_, hreq, _⟩ := encodeData_frame h
+  have hv := vreq_enc (op := op) (a := erA (absOf s io del)) hI.init hnf hnc hnp ⟨hst, hgo⟩
+  rw [hv, hreq]
+  obtain ⟨_, _, _, _, _, u6, _, _, _, u10, u11, _⟩ := updateSizeHint_fields s io.availIn
+  simp only [reqOf, u6, u10, u11, Req.mk.injEq, List.cons.injEq, and_true, true_and]
+  exact ⟨rfl, rfl, rfl, rfl, rfl⟩
 
 theorem erA_absR (s : St) (rem del : Bytes) : erA (absR s rem del) = ⟨er (core s), del ++ s.pending, rem, rem.length⟩ := rfl
 
@@ -494,6 +568,15 @@ set_option maxRecDepth 100000 in
 sequences of two chunkings of the same input differ, so (the payload encoder answering differently,
 as the real one does when the first request closes its meta-block) do the bytes -/
 theorem chunking_counterexample_b : reqsOf cxB
+    = [{ site := 0, lo := 0, hi := 16384, lf := 0, isLast := true, forceFlush := false }] := by decide
+
+set_option maxRecDepth 100000 in
+/-- the same two request lists on the ring-free machine (`vlog`): PROCESS of the block issues it plain … -/
+example : vlog cxOracle 0 2 ⟨er (core (ensureInitialized cxStart)), [], cxData, 16384⟩
+    = [{ site := 0, lo := 0, hi := 16384, lf := 0, isLast := false, forceFlush := false }] := by decide
+set_option maxRecDepth 100000 in
+/-- … FINISH of the block issues it with `is_last` -/
+example : vlog cxOracle 2 2 ⟨er (core (ensureInitialized cxStart)), [], cxData, 16384⟩
     = [{ site := 0, lo := 0, hi := 16384, lf := 0, isLast := true, forceFlush := false }] := by decide
 
 /-! ### non-vacuity -/
